@@ -161,14 +161,14 @@ def check_image(h, h2, live, links, tag):
 
 
 @lemma("C02", params=lambda: [(m,) for m in deletion_masks(P(4, 5))],
-       bounds="one task per deletable set of nodes; stores of 4 nodes (quick) / 5 (thorough) in a 3-level hierarchy, any subset of leaves deleted, optional index reuse, metadata on the odd nodes or on none, <= 2 (quick) / 3 (thorough) optional links between live nodes, the first always present, each a value link (source offsets 0..1 quick / 0..2 thorough, target offset 0 quick / 0..2 thorough) or an order link",
+       bounds="one task per deletable set of nodes; stores of 4 nodes (quick) / 5 (thorough) in a 3-level hierarchy, any subset of leaves deleted, optional index reuse, metadata on the odd nodes or on none, <= 2 optional links between live nodes, the first always present, each a value link (source offsets 0..1 quick / 0..2 thorough, target offset 0 quick / 0..2 thorough) or an order link",
        outside="the JSON text leg (pydantic dump/parse) is exercised by the native replay of every path, not symbolically",
        opts={"max_paths": 400000, "timeout_s": 3000})
 def to_serial_from_serial(dels):
     n = P(4, 5)
     h, live = holey_hugr(n, dels=dels)
     reused = getattr(h, "_arity_of_reused", None)
-    links = live_links(P(2, 3), live, max_off=P(1, 2), arity=lambda i: ARITY[9] if i == reused else ARITY[i])
+    links = live_links(2, live, max_off=P(1, 2), arity=lambda i: ARITY[9] if i == reused else ARITY[i])
     sym.predicate("has_order_link", any(isinstance(l.o, int) and l.o == -1 for l in links))
     sym.predicate("has_metadata", any(h[Node(i)].metadata for i in live))
     store.attach_links(h, links, {i: (ARITY[9] if i == reused else ARITY[i])[1] for i in live if i != 0})
